@@ -259,6 +259,9 @@ def run(chk):
         c14.check_extraction(chk, v, rule="R4")
         c11_chk = _Sub(chk, "R5")
         c11.check_monomial(c11_chk, v, "torusPolynomialMulByXai", "coefsT", False)
+        # every CMux of the rotation multiplies the whole accumulator (all k+1 components) by X^ai - 1
+        c11.check_monomial(c11_chk, v, "torusPolynomialMulByXaiMinusOne", "coefsT", True)
+        c14.check_tlwe_monomial(c11_chk, v)
 
 
 def evaluate(chk, v, suffixes):
